@@ -7,10 +7,10 @@ def run(ctx: Ctx):
     n_defs, n_points = (24, 3) if ctx.tier == "quick" else (300, 6)
     ctx.translate("gen_layout")
     ctx.translate("gen_ekf")
-    ctx.prove("Props/C05.v", ["Props/C05_glue.v"])
+    ctx.prove("Props/C05.v", ["Props/C05_glue.v", "Props/C05_refine.v"])
     ctx.make(["Model/EkfExec.vo"])
     ctx.trusted += [
-        "translators gen_ekf.py (sensor_model formulas, recorded quantities, rejection branch) and gen_layout.py; agreement of renderings A (MathComp) and B (lists over Q) trusted, exercised by the correspondence",
+        "translators gen_ekf.py (sensor_model formulas, recorded quantities, rejection branch) and gen_layout.py; rendering B (lists over Q, executed) is PROVED to compute the entries of rendering A (MathComp, proved about) at the field rat: Props/C05_refine.v; its premises (shapes, inverse certificate S * linv S = I) are checked by computation on every case (code 8); the exact decision function rm_exact is related to the regenerated predicate only by the correspondence",
         "Model/Named.ncov_make (named_covariance container, hand model tied by correspondence): Q = diag of per-reading noise in sorted reading order",
         "oracle contracts: numpy matmul/transpose/+/-, np.linalg.inv (S S^-1 = I), sympy diff, lambdify; float rounding at relative 1e-9 on SPD dyadic P",
     ]
